@@ -34,6 +34,9 @@ func (s *Scope) evalInterval(e ast.Expr, depth int, assumptions *[]string) ival 
 		if o == nil {
 			return unknown()
 		}
+		if b, ok := s.paramBounds[o]; ok {
+			return b
+		}
 		// unique local definition
 		var def ast.Expr
 		n := 0
@@ -92,7 +95,45 @@ func (s *Scope) evalInterval(e ast.Expr, depth int, assumptions *[]string) ival 
 			// t.Sub(start-of-year of t in t's own location) >= 0
 			if sel, ok := unparen(x.Fun).(*ast.SelectorExpr); ok && len(x.Args) == 1 {
 				recv := s.resolveIdent(sel.X)
-				if d, ok := unparen(x.Args[0]).(*ast.CallExpr); ok && CalleeName(s.Info, d) == "time.Date" && len(d.Args) == 8 {
+				d0, _ := unparen(x.Args[0]).(*ast.CallExpr)
+				// the start of the year may be built by a one-line helper (return time.Date(…)):
+				// unfold it by substituting the helper's parameters with the call's arguments
+				if d0 != nil && CalleeName(s.Info, d0) != "time.Date" {
+					if hf := Callee(s.Info, d0); hf != nil {
+						if h := s.P.ByObj[hf]; h != nil && h.Decl.Body != nil && len(h.Decl.Body.List) == 1 {
+							if rs, ok := h.Decl.Body.List[0].(*ast.ReturnStmt); ok && len(rs.Results) == 1 {
+								if inner, ok := unparen(rs.Results[0]).(*ast.CallExpr); ok && CalleeName(h.Pkg.TypesInfo, inner) == "time.Date" && len(inner.Args) == 8 {
+									sub := map[types.Object]ast.Expr{}
+									for i := range d0.Args {
+										if po := paramObj(h, i); po != nil {
+											sub[po] = d0.Args[i]
+										}
+									}
+									cp := *inner
+									cp.Args = make([]ast.Expr, len(inner.Args))
+									okAll := true
+									for i, a := range inner.Args {
+										cp.Args[i] = a
+										if id, ok := unparen(a).(*ast.Ident); ok {
+											if po := h.Pkg.TypesInfo.ObjectOf(id); po != nil {
+												if r, ok := sub[po]; ok {
+													cp.Args[i] = r
+												}
+											}
+										} else if _, isConst := h.Pkg.TypesInfo.Types[a]; !isConst {
+											okAll = false
+										}
+									}
+									if okAll {
+										d0 = &cp
+										s.dateUnfolded = true
+									}
+								}
+							}
+						}
+					}
+				}
+				if d := d0; d != nil && (s.dateUnfolded || CalleeName(s.Info, d) == "time.Date") && len(d.Args) == 8 {
 					yearOK := false
 					if yc, ok := unparen(d.Args[0]).(*ast.CallExpr); ok && CalleeName(s.Info, yc) == "(time.Time).Year" {
 						if ys, ok := unparen(yc.Fun).(*ast.SelectorExpr); ok && s.resolveIdent(ys.X) == recv && recv != nil {
